@@ -8,15 +8,16 @@ import numpy as np
 import common as C
 import hydro_common as HC
 
-LEAN_MODULES = ["WallGoVerif.Props.C02", "WallGoVerif.Props.C02M"]
-LEMMA_MODULES = ["WallGoVerif.Lemmas.Hydro", "WallGoVerif.Lemmas.Matching", "WallGoVerif.Model.Matching"]
-GEN_MODULES = ["Helpers", "Hydro"]
+LEAN_MODULES = ["WallGoVerif.Props.C02", "WallGoVerif.Props.C02M", "WallGoVerif.Props.C02T"]
+LEMMA_MODULES = ["WallGoVerif.Lemmas.Hydro", "WallGoVerif.Lemmas.Matching", "WallGoVerif.Model.Matching", "WallGoVerif.Lemmas.Template"]
+GEN_MODULES = ["Helpers", "Hydro", "Template"]
 VALIDATION_POINTS = (150, 3000)
 RULE = ("obligations = Lean theorems of Props.C02 about regenerated Gen.R.Hydro (junction relations <=> flux conservation, "
         "residual zero set independent of the scale factor, detonation residual => conservation, c1/c2 = fluxes on both sides) "
         "+ Float translator validation + backward-error monitor of every real matching (polish the exact conservation laws) "
         "+ branch/call-site log + Props.C02M (decision logic of findMatching: Model.Matching) with exact correspondence of that model "
-        "against the REAL findMatching on scripted physics/solver stubs; distinct = (EOS, branch, rounded vw) or (logic shape, kind)")
+        "against the REAL findMatching on scripted physics/solver stubs + Props.C02T (template-model solver: T-, deflagration and detonation "
+        "closed forms and boundary constants conserve the fluxes of a template EOS, regenerated Gen.R.Template); distinct = (EOS, branch, rounded vw) or (logic shape, kind)")
 ASSUMPTIONS = ["scipy root(hybr), brentq, minimize_scalar(Bounded), solve_ivp are oracles; their results are monitored by backward error "
                "(distance to an exact solution of the conservation laws <= 50*(rtol + atol/T))",
                "theorem hypotheses: w = e + p, 0<v<1, e+ != e-, e+ + p- != 0, vpovm > 0 (checked on every real matching)"]
@@ -105,6 +106,25 @@ def search(rep: C.Report, tier: str, broken):
             info = check_matching(rep, name, th, h, vw, tier)
             if not info or "backward_error" not in info:
                 continue
+            # the template-model solver on equations of state that ARE of template form: its matching and boundary constants must conserve
+            # the fluxes of that equation of state (every Tn, unequal sound speeds included)
+            if name.startswith("template"):
+                try:
+                    tvp, tvm, tTp, tTm = map(float, h.template.findMatching(vw))
+                    tc = h.template.findHydroBoundaries(vw)
+                    tf = HC.fluxes(th, tvp, tvm, tTp, tTm)
+                    rep.case(key=(name, "template-solver", round(vw, 3)))
+                    rep.count("template-solver matchings")
+                    terr = max(abs(tf[0] - tf[1]) / abs(tf[0]), abs(tf[2] - tf[3]) / abs(tf[2]), abs(tc[0] + tf[1]) / abs(tf[1]), abs(tc[1] - tf[3]) / abs(tf[3]),
+                               abs(tc[0] + tf[0]) / abs(tf[0]), abs(tc[1] - tf[2]) / abs(tf[2]))
+                    if not terr <= 1e-7:
+                        rep.violation("template-model solver: matching / boundary constants do not conserve the fluxes of the template equation of state",
+                                      {"eos": name, "vw": vw, "vp": tvp, "vm": tvm, "Tp": tTp, "Tm": tTm, "c1": float(tc[0]), "c2": float(tc[1]),
+                                       "fluxes(E+,E-,M+,M-)": list(map(float, tf)), "relative_mismatch": terr,
+                                       "how": "hydro_common.make_hydro(eos).template.findMatching(vw) / findHydroBoundaries(vw)"},
+                                      finding_key="C02:template-solver")
+                except Exception as ex:  # noqa: BLE001
+                    rep.count("template-solver raised " + type(ex).__name__)
             # boundary constants handed to the wall equations
             try:
                 c1, c2, Tp, Tm, vmid = h.findHydroBoundaries(vw)
